@@ -1,7 +1,7 @@
 """Real kill / restart runs (C11) and racing launches of one real job script (C05).
 
 usage: python -m xv.impl.restart_worker <in.json> <out.json>
-in:  {"kind": "restart" | "race", "cases": [case], "parallel": n}
+in:  {"kind": "restart" | "race" | "twosched", "cases": [case], "parallel": n}
 out: [observation per case]
 
 restart case: {"id", "jobs": [{"x": int, "deps": [index], "token": bool}], "token_total": int|None,
@@ -13,6 +13,13 @@ restart case: {"id", "jobs": [{"x": int, "deps": [index], "token": bool}], "toke
   signal is sent to the scheduler pid only; the same script is run again; gates are opened; everything observable is
   collected.  Taps installed by the script at run time (wrappers around `CommandLineJob.aio_run/aio_process` and
   `LocalProcessBuilder.start`) give the rendezvous for two phases and a diagnostic log; no source change.
+
+restart case with "kills": 2 : {"id", "jobs", "token_total", "signals": [s1, s2], "phase2": "running" | "between"}
+  killed while the first root job runs, run again (adopts), killed again at phase2, run a third time: must finish.
+
+twosched case: {"id", "n": 2|3, "mode": "forced" | "free", "offsets": [s], "slow": [s], "hold": s, "max_slow": s}
+  n real experiment processes (names xp0..) on ONE workspace submit the same task configuration; a public scheduler
+  `Listener` may be slow in job_state while the job is started (job lock held); the lock file identity is watched.
 
 race case: {"id", "n": 2|3, "fail_first": bool, "offsets": [seconds]}
   One real job script (`RunMode.GENERATE_ONLY`) is launched n times concurrently, each launcher following
@@ -200,6 +207,69 @@ except Exception as e:
 (ws / f"final.{run}.json").write_text(json.dumps(final))
 '''
 
+XP2 = '''import json, os, sys, time
+from pathlib import Path
+case = json.loads(Path(sys.argv[1]).read_text()); k = int(sys.argv[2])
+ws = Path(case["ws"])
+os.environ["XPM_WORKDIR"] = str(ws / "xpmwork")
+sys.path.insert(0, case["libroot"])
+import logging
+logging.basicConfig(level=logging.ERROR)
+import xvlib as L
+from experimaestro import experiment
+from experimaestro.scheduler import Listener, JobState
+
+class SlowStart(Listener):
+    \"\"\"public scheduler listener: something slow done while the job is being started (job lock held)\"\"\"
+    def __init__(self):
+        self.done = False
+    def job_state(self, job):
+        if job.state == JobState.READY and not self.done:
+            self.done = True
+            (ws / f"starting.{k}").touch()
+            if case["mode"] == "forced":
+                # scheduler 0 is slow until the others have submitted (they queue on the job lock); the others are slow
+                # until the job launched before them has started its body
+                end = time.time() + case["max_slow"]
+                if k == 0:
+                    cond = lambda: all((ws / f"submitted.{i}").exists() for i in range(1, case["n"]))
+                else:
+                    cond = lambda: sum(1 for l in (ws / "task.log").read_text().splitlines() if l.startswith("start")) >= k if (ws / "task.log").exists() else False
+                while time.time() < end and not cond():
+                    time.sleep(0.02)
+                time.sleep(0.3)
+            else:
+                time.sleep(case["slow"][k])
+
+final = {"error": None, "state": None}
+time.sleep(case["offsets"][k])
+if case["mode"] == "forced" and k > 0:
+    t_end = time.time() + 30
+    while not (ws / "starting.0").exists() and time.time() < t_end:
+        time.sleep(0.01)
+try:
+    with experiment(ws, f"xp{k}", port=-1) as xp:
+        xp.setenv("PYTHONPATH", case["pythonpath"])
+        if case["mode"] == "forced" or case["slow"][k] > 0:
+            xp.scheduler.addlistener(SlowStart())
+        t = L.Racer(x=case["x"], hold=case["hold"], fail_first=False, logf=ws / "task.log")
+        t.submit()
+        job = t.__xpm__.job
+        (ws / f"lock.{k}").write_text(str(job.lockpath))
+        if k > 0:
+            time.sleep(0.4)
+        (ws / f"submitted.{k}").touch()
+        xp.wait()
+    final["state"] = t.__xpm__.job.state.name
+except BaseException as e:
+    final["error"] = f"{type(e).__name__}: {e}"
+    try:
+        final["state"] = t.__xpm__.job.state.name
+    except Exception:
+        pass
+(ws / f"final.{k}.json").write_text(json.dumps(final))
+'''
+
 RACEGEN = '''import json, os, sys
 from pathlib import Path
 case = json.loads(Path(sys.argv[1]).read_text())
@@ -323,7 +393,8 @@ def run_restart_case(case, timeout=60):
         if phase == "before-launch":
             ok = wait_for(lambda: (ws / "at_launch").exists(), timeout)
         elif phase in ("running", "token-held"):
-            ok = wait_for(lambda: started(roots[0]), timeout)
+            # with a token at capacity any of the root jobs may be the one that got it
+            ok = wait_for(lambda: started(roots[0]) or (case.get("token_total") and any(started(x) for x in roots)), timeout)
             if phase == "running" and not case.get("token_total"):
                 # every job without dependency gets launched
                 wait_for(lambda: all(started(x) for x in roots), 5)
@@ -580,6 +651,228 @@ def run_race_case(case, timeout=60):
     return obs
 
 
+# ------------------------------------------------------------------------------------------ consecutive kills
+
+
+def _taps(ws):
+    res = []
+    if (ws / "tap.log").exists():
+        for l in (ws / "tap.log").read_text().splitlines():
+            try:
+                res.append(json.loads(l))
+            except Exception:
+                pass
+    return res
+
+
+def _live_pidfiles(ws, run):
+    """jobs (x) whose pid file names a live process: what a restarted scheduler will find"""
+    f = ws / f"ids.{run}.json"
+    ids = json.loads(f.read_text()) if f.exists() else {}
+    live = []
+    for x, ident in ids.items():
+        for pf in ws.glob(f"jobs/*/{ident}/*.pid"):
+            try:
+                if pid_alive(json.loads(pf.read_text())["pid"]):
+                    live.append(int(x))
+            except Exception:
+                pass
+    return sorted(live)
+
+
+def run_multikill_case(case, timeout=60):
+    """the experiment is killed, run again and killed again (signals[0], signals[1]); the third run must finish.
+    First kill while the first root job runs; second kill at `phase2` ("running": the adopted job still runs;
+    "between": right after the first root job ended)."""
+    root = Path(tempfile.mkdtemp(prefix="xv-c11-"))
+    obs = {"id": case["id"], "error": None, "kills": 2}
+    procs = []
+    try:
+        ws, env, full = prepare(root, dict(case, phase="running"))
+        (root / "xpmain.py").write_text(XPMAIN)
+        log = ws / "task.log"
+        cmd = [PY, str(root / "xpmain.py"), str(root / "case.json")]
+        xs = [j["x"] for j in case["jobs"]]
+        roots = [j["x"] for j in case["jobs"] if not j["deps"]]
+        t0 = time.time()
+
+        def started(x):
+            return any(k == "start" and xx == x for k, xx, _, _ in read_log(log))
+
+        def ended(x):
+            return any(k == "end" and xx == x for k, xx, _, _ in read_log(log))
+
+        def launch(run):
+            p = subprocess.Popen(cmd + [str(run)], env=env, stdout=subprocess.DEVNULL, stderr=open(root / f"err{run}", "w"), cwd=str(root))
+            procs.append(p)
+            OWN.add(p.pid)
+            return p
+
+        def kill(p, signame, run):
+            os.kill(p.pid, getattr(signal, signame))
+            try:
+                obs[f"rc{run}"] = p.wait(timeout=timeout)
+            except subprocess.TimeoutExpired:
+                obs[f"rc{run}"] = "timeout"
+                p.kill()
+                p.wait()
+            time.sleep(0.2)
+            lines = read_log(log)
+            open_bodies = {x: pid for k, x, pid, _ in lines if k == "start"}
+            for k, x, pid, _ in lines:
+                if k == "end":
+                    open_bodies.pop(x, None)
+            obs[f"alive_after_kill{run}"] = {str(x): pid_alive(pid) for x, pid in open_bodies.items()}
+            return open_bodies
+
+        # ---- run 1, killed while the first root runs
+        p1 = launch(1)
+        ok = wait_for(lambda: started(roots[0]) or (case.get("token_total") and any(started(x) for x in roots)) or p1.poll() is not None, timeout)
+        if not case.get("token_total"):
+            wait_for(lambda: all(started(x) for x in roots), 5)
+        obs["rendezvous"] = bool(ok and p1.poll() is None)
+        open1 = kill(p1, case["signals"][0], 1)
+        obs["live_at_restart2"] = _live_pidfiles(ws, 1)
+        # ---- run 2: adopts, then is killed too
+        p2 = launch(2)
+        wait_for(lambda: (ws / "submitted.2").exists() or p2.poll() is not None, timeout)
+        expect = [x for x, pid in open1.items() if pid_alive(pid)]
+        wait_for(lambda: all(any(t[0] == "2" and t[2] in ("adopted", "aio_run") and t[3] == x for t in _taps(ws)) for x in expect) or p2.poll() is not None, 8)
+        time.sleep(0.3)
+        if case["phase2"] == "between" and p2.poll() is None:
+            (ws / f"gate.{roots[0]}").touch()
+            wait_for(lambda: ended(roots[0]), timeout, step=0.002)
+            time.sleep(case.get("delay", 0.0))
+        obs["run2_alive_at_kill"] = p2.poll() is None
+        if p2.poll() is None:
+            kill(p2, case["signals"][1], 2)
+        else:
+            obs["rc2"] = p2.returncode
+        f2 = ws / "final.2.json"
+        obs["final2"] = json.loads(f2.read_text()) if f2.exists() else None
+        lines = read_log(log)
+        obs["started_before_kill2"] = sorted(x for k, x, _, _ in lines if k == "start")
+        obs["ended_before_kill2"] = sorted(x for k, x, _, _ in lines if k == "end")
+        obs["live_at_restart"] = _live_pidfiles(ws, 2 if (ws / "ids.2.json").exists() else 1)
+        tokdir = ws / "xpmwork" / "tokens" / "xvtok.counter"
+        obs["token_files_at_restart"] = len(list(tokdir.glob("*.token"))) if tokdir.exists() else 0
+        obs["jobs_bak_at_restart"] = sorted(str(p.relative_to(ws / "xp" / "restart" / "jobs.bak").parent) for p in (ws / "xp" / "restart" / "jobs.bak").glob("*/*")) \
+            if (ws / "xp" / "restart" / "jobs.bak").exists() else None
+        # ---- run 3: must finish
+        p3 = launch(3)
+        wait_for(lambda: (ws / "submitted.3").exists() or p3.poll() is not None, timeout)
+        expect = obs["live_at_restart"]
+        wait_for(lambda: all(any(t[0] == "3" and t[2] in ("adopted", "aio_run") and t[3] == x for t in _taps(ws)) for x in expect) or p3.poll() is not None, 8)
+        time.sleep(0.3)
+        for x in xs:
+            (ws / f"gate.{x}").touch()
+        obs["rc3"] = wait_or_hang(p3, log, t_quiet=case.get("t_quiet", 12), t_max=case.get("t_max", 180))
+        if obs["rc3"] == "timeout":
+            p3.kill()
+            p3.wait()
+        # processes of a run that could not even start are still to be ended: gates are open, wait for them
+        wait_for(lambda: not any(pid_alive(pid) for _, _, pid, _ in read_log(log)), 15, step=0.1)
+        lines = read_log(log)
+        obs["log"] = [[k, x, pid] for k, x, pid, _ in lines]
+        obs["intervals"] = lines_to_intervals(lines)
+        f3 = ws / "final.3.json"
+        obs["final3"] = json.loads(f3.read_text()) if f3.exists() else None
+        wait_for(lambda: not list(tokdir.glob("*.token")), 3)
+        obs["token_files"] = sorted(p.name[-14:] for p in tokdir.glob("*.token")) if tokdir.exists() else []
+        tp = _taps(ws)
+        obs["tap"] = {f"{what}{r}": sorted(t[3] for t in tp if t[0] == str(r) and t[2] == what) for what in ("adopted", "launched") for r in (1, 2, 3)}
+        obs["tap"]["raised"] = sorted({f"run {t[0]}: {t[4]}: {t[5]}" for t in tp if t[2] == "aio_submit-raised"})
+        for r in (2, 3):
+            e = (root / f"err{r}").read_text() if (root / f"err{r}").exists() else ""
+            obs[f"stderr{r}"] = e[-700:] if ("Traceback" in e or obs.get(f"rc{r}") not in (0, -9, -15)) else ""
+        obs["wall"] = round(time.time() - t0, 2)
+    except Exception as e:
+        obs["error"] = f"{type(e).__name__}: {e}"
+    finally:
+        for p in procs:
+            if p.poll() is None:
+                p.kill()
+        try:
+            for l in read_log(root / "ws" / "task.log"):
+                if pid_alive(l[2]):
+                    try:
+                        os.kill(l[2], signal.SIGKILL)
+                    except Exception:
+                        pass
+        except Exception:
+            pass
+        shutil.rmtree(root, ignore_errors=True)
+    return obs
+
+
+# ------------------------------------------------------------------------------------------ two schedulers, one job
+
+
+def run_twosched_case(case, timeout=90):
+    """n experiment processes (different experiment names) on one workspace submit the same task configuration;
+    the run lock file of the job is watched from outside (it must stay one file)"""
+    root = Path(tempfile.mkdtemp(prefix="xv-c05-"))
+    obs = {"id": case["id"], "error": None}
+    procs = []
+    try:
+        ws, env, full = prepare(root, dict(case, x=case.get("x", 1)))
+        (root / "xp2.py").write_text(XP2)
+        inodes, stop = [], threading.Event()
+
+        def watch():
+            # identity of <job>.lock over time: (inode | None) whenever it changes
+            last = "unset"
+            while not stop.is_set():
+                cur = None
+                for f in ws.glob("jobs/*/*/*.lock"):
+                    try:
+                        cur = f.stat().st_ino
+                    except OSError:
+                        cur = None
+                if cur != last and not (last == "unset" and cur is None):
+                    inodes.append(cur)
+                    last = cur
+                time.sleep(0.005)
+
+        th = threading.Thread(target=watch, daemon=True)
+        th.start()
+        for k in range(case["n"]):
+            procs.append(subprocess.Popen([PY, str(root / "xp2.py"), str(root / "case.json"), str(k)], env=env,
+                                          stdout=subprocess.DEVNULL, stderr=open(root / f"err{k}", "w"), cwd=str(root)))
+        rcs = []
+        for p in procs:
+            try:
+                rcs.append(p.wait(timeout=timeout))
+            except subprocess.TimeoutExpired:
+                rcs.append("timeout")
+                p.kill()
+        time.sleep(0.1)
+        stop.set()
+        th.join(1)
+        lines = read_log(ws / "task.log")
+        obs["rcs"] = rcs
+        obs["log"] = [[k, x, pid, t] for k, x, pid, t in lines]
+        obs["intervals"] = lines_to_intervals(lines)
+        obs["finals"] = [json.loads((ws / f"final.{k}.json").read_text()) if (ws / f"final.{k}.json").exists() else None for k in range(case["n"])]
+        obs["lock_inodes"] = inodes[:20]
+        obs["done"] = bool(list(ws.glob("jobs/*/*/*.done")))
+        obs["err"] = "".join(((root / f"err{k}").read_text()[-300:] for k in range(case["n"]) if rcs[k] != 0))[-600:]
+    except Exception as e:
+        obs["error"] = f"{type(e).__name__}: {e}"
+    finally:
+        for p in procs:
+            if p.poll() is None:
+                p.kill()
+        try:
+            for l in read_log(root / "ws" / "task.log"):
+                if pid_alive(l[2]):
+                    os.kill(l[2], signal.SIGKILL)
+        except Exception:
+            pass
+        shutil.rmtree(root, ignore_errors=True)
+    return obs
+
+
 # ------------------------------------------------------------------------------------------ orphan reaping
 
 
@@ -623,7 +916,13 @@ def ensure_orphans_are_reaped():
 def main():
     data = json.loads(Path(sys.argv[1]).read_text())
     mode = ensure_orphans_are_reaped() if data["kind"] == "restart" else "n/a"
-    f = run_restart_case if data["kind"] == "restart" else run_race_case
+    if data["kind"] == "restart":
+        def f(case):
+            return run_multikill_case(case) if case.get("kills", 1) >= 2 else run_restart_case(case)
+    elif data["kind"] == "twosched":
+        f = run_twosched_case
+    else:
+        f = run_race_case
     with ThreadPoolExecutor(max_workers=data.get("parallel", 8)) as ex:
         res = list(ex.map(f, data["cases"]))
     for r in res:
